@@ -28,15 +28,15 @@ ASSUMPTIONS = [
 ]
 TIERS = {
     "quick": {"shards": 16, "cases": 16, "exhaustive_len": 5, "random_scripts": 1500, "tcp_cases": 4, "timeout": 300},
-    "thorough": {"shards": 16, "cases": 16, "exhaustive_len": 6, "random_scripts": 60000, "tcp_cases": 40, "timeout": 3000},
+    "thorough": {"shards": 16, "cases": 16, "exhaustive_len": 7, "random_scripts": 60000, "tcp_cases": 40, "timeout": 3000},
 }
 FLOORS = {
     "quick": {"counts": {"scripts_exhaustive": 610770, "scripts_random": 20000, "tcp_streams": 50,
                          "lines_compared": 300000}, "keys": 610770},
-    "thorough": {"counts": {"scripts_exhaustive": 7329234, "scripts_random": 900000, "tcp_streams": 600}, "keys": 7329234},
+    "thorough": {"counts": {"scripts_exhaustive": 87950802, "scripts_random": 900000, "tcp_streams": 600}, "keys": 87950802},
 }
 EXHAUSTIVE = {"quick": "all streams over {a,LF,CR} with length <= 5 x all fragmentations x 3 gap behaviours per gap",
-              "thorough": "all streams over {a,LF,CR} with length <= 6 x all fragmentations x 3 gap behaviours per gap"}
+              "thorough": "all streams over {a,LF,CR} with length <= 7 x all fragmentations x 3 gap behaviours per gap"}
 GAPS = ("", "t", "r")     # nothing / None + select timeout / None + select ready
 
 
